@@ -335,6 +335,17 @@ def tet6 (a b c : V3 R) : R := V3.dot a (V3.cross b c)
 def vol6 (pos : Nat → V3 R) (T : List Surface.Tri) : R :=
   T.foldl (fun s t => s + tet6 (pos t.1) (pos t.2.1) (pos t.2.2)) (lit 0)
 
+/-- `cell::get_volume_reference_point` on a freshly built daughter (every face is used): the position of the first node
+    of the first face; `vec3(0,0,0)` when there is no face -/
+def volRef (pos : Nat → V3 R) (T : List Surface.Tri) : V3 R := (T.head?.map (fun t => pos t.1)).getD zeroV3
+
+/-- what the signed-volume loops of `check_face_normal_orientation` / `compute_volume` accumulate: the coordinates are
+    taken relative to the reference point before the products are formed (for a closed surface the same number as `vol6`:
+    `C09.vol6c_eq_vol6`; far from the origin the un-centred products cancel) -/
+def vol6c (pos : Nat → V3 R) (T : List Surface.Tri) : R :=
+  let o := volRef pos T
+  T.foldl (fun s t => s + tet6 (pos t.1 - o) (pos t.2.1 - o) (pos t.2.2 - o)) (lit 0)
+
 structure Daughter (R : Type) where
   nnodes : Nat
   used : List Bool               -- per node slot
@@ -367,7 +378,7 @@ def initDaughter (nodes : Array (V3 R)) (T : List Surface.Tri) : Except DErr (Da
     else
       let pos := fun i => match nodes[i]? with | some q => q | none => zeroV3
       let consistent := Surface.closedSimpleB T
-      let v := vol6 pos T
+      let v := vol6c pos T
       -- check_face_normal_orientation: consistent input is left alone; every face is flipped when the signed volume is negative
       let T' := if consistent && decide (v < (lit 0 : R)) then T.map (fun t => (t.1, t.2.2, t.2.1)) else T
       .ok ⟨nodes.size, used, T', free, !consistent, if v < (lit 0 : R) then -v else v⟩
